@@ -425,6 +425,11 @@ def main(argv):
                               "plan": ["heapbase 200000000000", "sbrk cap %d" % (256 << 20)],
                               "hist": ["cfg seed 1"] + h + ["u"], "meta": {"n": len(h), "enum": True, "faulty": False,
                                                                               "forced": False, "ops": []}})
+        # the enumerated families (boundary sweep, very large blocks, regression corpus, short histories)
+        # run first: a wall-clock budget must cut the random histories, never the exhaustive parts
+        cases = cases[n_hist:] + cases[:n_hist]
+        for j, c in enumerate(cases):
+            c["i"] = j
         budget = checklib.Budget(wall_cap)
         results = []
         BATCH = 512
